@@ -30,6 +30,7 @@ use crate::error::Error;
 use crate::hll::estimator::HipEstimator;
 use crate::hll::get_slot;
 use crate::hll::get_value;
+use crate::hll::serialization::COMPACT_FLAG_MASK;
 use crate::hll::serialization::CUR_MODE_HLL;
 use crate::hll::serialization::HLL_PREAMBLE_SIZE;
 use crate::hll::serialization::HLL_PREINTS;
@@ -210,14 +211,13 @@ impl Array6 {
             .map_err(insufficient_data("aux_count"))?; // always 0
 
         // Read packed byte array from offset HLL_BYTE_ARR_START
+        // The register array is stored in full in both the compact and the updatable form
+        // (for HLL_6 and HLL_8 the two forms differ in the flag only).
+        let _ = compact;
         let mut data = vec![0u8; num_bytes];
-        if !compact {
-            cursor
-                .read_exact(&mut data)
-                .map_err(insufficient_data("data"))?;
-        } else {
-            cursor.advance(num_bytes as u64);
-        }
+        cursor
+            .read_exact(&mut data)
+            .map_err(insufficient_data("data"))?;
 
         // Create estimator and restore state
         let mut estimator = HipEstimator::new(lg_config_k);
@@ -251,7 +251,8 @@ impl Array6 {
         bytes.write_u8(0); // unused for HLL mode
 
         // Write flags
-        let mut flags = 0u8;
+        // This is the compact form (what toCompactByteArray / serialize_compact emit)
+        let mut flags = COMPACT_FLAG_MASK;
         if self.estimator.is_out_of_order() {
             flags |= OUT_OF_ORDER_FLAG_MASK;
         }
